@@ -58,8 +58,9 @@ type Model struct {
 	decs   []*Dec
 	deferV bool
 
-	memo map[memoKey]int
-	snap map[int]bool // done flags by function id at the start of the current Invoke (nil: live state)
+	memo       map[memoKey]int
+	reachCache map[*Dec]map[int]bool
+	snap       map[int]bool // done flags by function id at the start of the current Invoke (nil: live state)
 }
 
 const (
@@ -305,11 +306,14 @@ func (m *Model) must(start node) (regs []*Reg, decs []*Dec) {
 	seenR := map[*Reg]bool{}
 	seenD := map[*Dec]bool{}
 	q := []node{start}
+	var underUnbuiltDecorator func(n node) bool
 	addR := func(r *Reg, excl exclSet) {
 		if !seenR[r] {
 			seenR[r] = true
 			regs = append(regs, r)
-			if !m.isDoneR(r) {
+			// r itself is required; what r needs depends on the context it is first built in
+			// when it can also be reached through a decorator that is not built yet
+			if !m.isDoneR(r) && !underUnbuiltDecorator(regNodeX(r, excl)) {
 				q = append(q, regNodeX(r, excl))
 			}
 		}
@@ -318,7 +322,7 @@ func (m *Model) must(start node) (regs []*Reg, decs []*Dec) {
 		if !seenD[d] {
 			seenD[d] = true
 			decs = append(decs, d)
-			if !m.isDoneD(d) {
+			if !m.isDoneD(d) && !underUnbuiltDecorator(decNodeX(d, excl)) {
 				q = append(q, decNodeX(d, excl))
 			}
 		}
@@ -326,20 +330,8 @@ func (m *Model) must(start node) (regs []*Reg, decs []*Dec) {
 	// a function that a not-yet-built decorator needs may be built while that decorator is on the
 	// stack or not, depending on evaluation order: whether its optional dependencies are then
 	// available is not decided by the spec state
-	reach := map[*Dec]map[int]bool{}
-	underUnbuiltDecorator := func(n node) bool {
-		for _, d := range m.decs {
-			if m.isDoneD(d) || d == n.self {
-				continue
-			}
-			if reach[d] == nil {
-				reach[d] = m.may(decNode(d))
-			}
-			if reach[d][n.f.ID] {
-				return true
-			}
-		}
-		return false
+	underUnbuiltDecorator = func(n node) bool {
+		return len(m.unbuiltDecoratorsReaching(n)) > 0
 	}
 	for len(q) > 0 {
 		n := q[0]
@@ -384,6 +376,7 @@ func (m *Model) must(start node) (regs []*Reg, decs []*Dec) {
 
 func (m *Model) resetMemo() {
 	m.memo = map[memoKey]int{}
+	m.reachCache = nil
 }
 
 type memoKey struct {
@@ -481,8 +474,49 @@ func (m *Model) availRegX(r *Reg, excl exclSet) int {
 	}
 	m.memo[k] = avUnknown
 	v := m.availParams(regNodeX(r, excl))
+	// r may instead be built first while a decorator that needs it is on the stack: if that
+	// context gives a different answer the outcome depends on evaluation order
+	if u := m.unbuiltDecoratorsReaching(regNodeX(r, excl)); len(u) > 0 && v != avUnknown {
+		ex2 := excl
+		for _, d := range u {
+			ex2 = ex2.with(d)
+		}
+		if ex2.key() != excl.key() {
+			k2 := memoKey{r: r, ex: ex2.key()}
+			v2, ok := m.memo[k2]
+			if !ok {
+				m.memo[k2] = avUnknown
+				v2 = m.availParams(regNodeX(r, ex2))
+				m.memo[k2] = v2
+			}
+			if v2 != v {
+				v = avUnknown
+			}
+		}
+	}
 	m.memo[k] = v
 	return v
+}
+
+// unbuiltDecoratorsReaching: decorators that are not built, not already on the (modelled) stack,
+// and transitively need n's function.
+func (m *Model) unbuiltDecoratorsReaching(n node) []*Dec {
+	var out []*Dec
+	for _, d := range m.decs {
+		if m.isDoneD(d) || d == n.self || n.excl.has(d) {
+			continue
+		}
+		if m.reachCache == nil {
+			m.reachCache = map[*Dec]map[int]bool{}
+		}
+		if m.reachCache[d] == nil {
+			m.reachCache[d] = m.may(decNode(d))
+		}
+		if m.reachCache[d][n.f.ID] {
+			out = append(out, d)
+		}
+	}
+	return out
 }
 
 func (m *Model) availDecX(d *Dec, excl exclSet) int {
